@@ -140,4 +140,194 @@ theorem w11_reachable : Reachable w11 := by
 
 example : w11.sd = .returnedNil ∧ w11.started = 1 ∧ w11.lateClosed = 1 := by decide
 
+/-! ### Liveness on the model: once the signal is set the system runs down, and it cannot get stuck before Shutdown returned
+
+  Go's scheduler is fair: a goroutine that can take a step eventually takes it.  Under that one assumption the three
+  theorems below give "Shutdown returns once the peers are gone" for every interleaving:
+  * `C11_measure_decreases`: once the shutdown signal is set, EVERY step that changes the state - whoever takes it, the
+    environment included - decreases a natural-number measure: no execution goes on for ever, at most `measure σ` state
+    changes remain;
+  * `C11_shutdown_not_stuck`: as long as Shutdown has been called and has not returned, and no session is still in its request
+    loop, a step of the library itself that changes the state is enabled (and it is not the context branch);
+  * `C11_shutdown_returns`: from any such state the library's own steps lead to Shutdown returning nil, in at most
+    `connClosed + 4` of them - no help from the environment needed. -/
+
+def serveRank : ServePc → Nat
+  | .notStarted => 3
+  | .accepting => 2
+  | .gotConn _ => 1
+  | .returned _ => 0
+
+def sdRank : SdPc → Nat
+  | .idle => 4
+  | .signalled => 3
+  | .listenerClosed => 2
+  | .waiting => 1
+  | .returnedNil => 0
+  | .returnedCtx => 0
+
+def measure (σ : State) : Nat :=
+  serveRank σ.serve + sdRank σ.sd + (if σ.waiterSawZero then 0 else 1) + (if σ.ctxExpired then 0 else 1) +
+    2 * σ.running + σ.connClosed
+
+theorem C11_measure_decreases (σ σ' : State) (l : Label) (hd : σ.done = true) (st : Step σ l σ') (hne : σ' ≠ σ) :
+    measure σ' < measure σ := by
+  cases st with
+  | serveStart hs => simp [measure, serveRank, hs]
+  | accept hs hl => simp [measure, serveRank, hs]
+  | acceptFail hs hl hd' => simp [measure, serveRank, hs]
+  | register c hs hd' => simp [hd] at hd'
+  | closeLate c hs hd' => simp [measure, serveRank, hs]
+  | sdSignal hs => simp [measure, sdRank, hs]
+  | sdCloseListener hs => simp [measure, sdRank, hs]
+  | sdStartWait hs => simp [measure, sdRank, hs]
+  | waiterDone hs hw =>
+    cases hz : σ.waiterSawZero
+    · simp [measure, hz]
+    · exfalso; apply hne; cases σ; simp_all
+  | sdReturnNil hs hw => simp [measure, sdRank, hs]
+  | sdReturnCtx hs hc => simp [measure, sdRank, hs]
+  | sessCloseConn hr => simp only [measure]; omega
+  | sessDone hc => simp only [measure]; omega
+  | ctxExpire =>
+    cases hz : σ.ctxExpired
+    · simp [measure, hz]
+    · exfalso; apply hne; cases σ; simp_all
+
+/-- a chain of state-changing steps -/
+inductive Run : State → Nat → State → Prop where
+  | nil (σ : State) : Run σ 0 σ
+  | cons (σ σ1 σ2 : State) (l : Label) (n : Nat) : Step σ l σ1 → σ1 ≠ σ → Run σ1 n σ2 → Run σ (n + 1) σ2
+
+/-- ... is at most `measure σ` long once the signal is set: the system quiesces -/
+theorem C11_runs_are_bounded (σ σ' : State) (n : Nat) (hd : σ.done = true) (r : Run σ n σ') : n + measure σ' ≤ measure σ := by
+  induction r with
+  | nil σ => simp
+  | cons σ σ1 σ2 l n st hne _ ih =>
+    have h1 := C11_measure_decreases σ σ1 l hd st hne
+    have h2 := ih (C11_no_start_after_signal σ σ1 l hd st).2
+    omega
+
+def Label.library : Label → Bool
+  | .sdCloseListener | .sdStartWait | .waiterDone | .sdReturnNil | .sessDone => true
+  | _ => false
+
+def SdPc.inProgress : SdPc → Bool
+  | .signalled | .listenerClosed | .waiting => true
+  | _ => false
+
+theorem C11_shutdown_not_stuck (σ : State) (h : Reachable σ) (hp : σ.sd.inProgress = true) (hr : σ.running = 0) :
+    ∃ l σ', Step σ l σ' ∧ σ' ≠ σ ∧ l.library = true := by
+  have inv := inv_reachable σ h
+  cases hs : σ.sd with
+  | idle => simp [hs, SdPc.inProgress] at hp
+  | returnedNil => simp [hs, SdPc.inProgress] at hp
+  | returnedCtx => simp [hs, SdPc.inProgress] at hp
+  | signalled =>
+    refine ⟨.sdCloseListener, _, Step.sdCloseListener σ hs, ?_, rfl⟩
+    intro he; have := congrArg State.sd he; simp [hs] at this
+  | listenerClosed =>
+    refine ⟨.sdStartWait, _, Step.sdStartWait σ hs, ?_, rfl⟩
+    intro he; have := congrArg State.sd he; simp [hs] at this
+  | waiting =>
+    by_cases hc : 0 < σ.connClosed
+    · refine ⟨.sessDone, _, Step.sessDone σ hc, ?_, rfl⟩
+      intro he; have := congrArg State.connClosed he; simp at this; omega
+    · have hw : σ.wg = 0 := by have := inv.wg_counts; omega
+      cases hz : σ.waiterSawZero with
+      | false =>
+        refine ⟨.waiterDone, _, Step.waiterDone σ hs hw, ?_, rfl⟩
+        intro he; have := congrArg State.waiterSawZero he; simp [hz] at this
+      | true =>
+        refine ⟨.sdReturnNil, _, Step.sdReturnNil σ hs hz, ?_, rfl⟩
+        intro he; have := congrArg State.sd he; simp [hs] at this
+
+/-- the contrapositive, as the statement about where executions end: a state in which the library can do nothing more, with
+    Shutdown called and no session left in its request loop, is a state in which Shutdown HAS returned -/
+theorem C11_quiescent_means_returned (σ : State) (h : Reachable σ) (hc : σ.sd ≠ .idle) (hr : σ.running = 0)
+    (hq : ∀ l σ', Step σ l σ' → l.library = true → σ' = σ) : σ.sd = .returnedNil ∨ σ.sd = .returnedCtx := by
+  cases hs : σ.sd with
+  | idle => exact absurd hs hc
+  | returnedNil => exact Or.inl rfl
+  | returnedCtx => exact Or.inr rfl
+  | signalled =>
+    obtain ⟨l, σ', st, hne, hl⟩ := C11_shutdown_not_stuck σ h (by simp [hs, SdPc.inProgress]) hr
+    exact absurd (hq l σ' st hl) hne
+  | listenerClosed =>
+    obtain ⟨l, σ', st, hne, hl⟩ := C11_shutdown_not_stuck σ h (by simp [hs, SdPc.inProgress]) hr
+    exact absurd (hq l σ' st hl) hne
+  | waiting =>
+    obtain ⟨l, σ', st, hne, hl⟩ := C11_shutdown_not_stuck σ h (by simp [hs, SdPc.inProgress]) hr
+    exact absurd (hq l σ' st hl) hne
+
+/-- a chain of the library's own steps -/
+inductive LibRun : State → Nat → State → Prop where
+  | nil (σ : State) : LibRun σ 0 σ
+  | cons (σ σ1 σ2 : State) (l : Label) (n : Nat) : Step σ l σ1 → l.library = true → LibRun σ1 n σ2 → LibRun σ (n + 1) σ2
+
+theorem libRun_drain : ∀ (k : Nat) (σ : State), σ.sd = .waiting → σ.running = 0 → σ.connClosed = k → σ.wg = k →
+    ∃ σ', LibRun σ (k + 2) σ' ∧ σ'.sd = .returnedNil ∧ σ'.running = 0 ∧ σ'.connClosed = 0 ∧ σ'.ended = σ.ended + k := by
+  intro k
+  induction k with
+  | zero =>
+    intro σ hs hr hc hw
+    refine ⟨{ { σ with waiterSawZero := true } with sd := .returnedNil }, ?_, rfl, hr, hc, rfl⟩
+    exact .cons _ _ _ .waiterDone _ (Step.waiterDone σ hs hw) rfl
+      (.cons _ _ _ .sdReturnNil _ (Step.sdReturnNil { σ with waiterSawZero := true } hs rfl) rfl (.nil _))
+  | succ k ih =>
+    intro σ hs hr hc hw
+    obtain ⟨σ', run, h1, h2, h3, h4⟩ := ih { σ with connClosed := σ.connClosed - 1, ended := σ.ended + 1, wg := σ.wg - 1 } hs hr
+      (by simp; omega) (by simp; omega)
+    refine ⟨σ', .cons _ _ _ .sessDone _ (Step.sessDone σ (by omega)) rfl run, h1, h2, h3, ?_⟩
+    simp at h4; omega
+
+/-- Shutdown returns nil by the library's own steps, within `connClosed + 4` of them, from ANY reachable state in which it
+    has been called and no session is still in its request loop - whatever the interleaving was that led there -/
+theorem C11_shutdown_returns (σ : State) (h : Reachable σ) (hp : σ.sd.inProgress = true) (hr : σ.running = 0) :
+    ∃ n σ', LibRun σ n σ' ∧ n ≤ σ.connClosed + 4 ∧ σ'.sd = .returnedNil ∧ σ'.running = 0 ∧ σ'.connClosed = 0 ∧
+      σ'.ended = σ.started := by
+  have inv := inv_reachable σ h
+  have hw : σ.wg = σ.connClosed := by have := inv.wg_counts; omega
+  cases hs : σ.sd with
+  | idle => simp [hs, SdPc.inProgress] at hp
+  | returnedNil => simp [hs, SdPc.inProgress] at hp
+  | returnedCtx => simp [hs, SdPc.inProgress] at hp
+  | waiting =>
+    obtain ⟨σ', run, h1, h2, h3, h4⟩ := libRun_drain σ.connClosed σ hs hr rfl hw
+    exact ⟨_, σ', run, by omega, h1, h2, h3, by simp [State.started]; omega⟩
+  | listenerClosed =>
+    obtain ⟨σ', run, h1, h2, h3, h4⟩ := libRun_drain σ.connClosed { σ with sd := .waiting } rfl hr rfl hw
+    exact ⟨_, σ', .cons _ _ _ .sdStartWait _ (Step.sdStartWait σ hs) rfl run, by omega, h1, h2, h3, by
+      simp [State.started] at h4 ⊢; omega⟩
+  | signalled =>
+    obtain ⟨σ', run, h1, h2, h3, h4⟩ := libRun_drain σ.connClosed
+      { { σ with sd := .listenerClosed, listenerOpen := (!σ.lSet && σ.listenerOpen), lSet := false } with sd := .waiting } rfl hr rfl hw
+    exact ⟨_, σ', .cons _ _ _ .sdCloseListener _ (Step.sdCloseListener σ hs) rfl
+      (.cons _ _ _ .sdStartWait _ (Step.sdStartWait _ rfl) rfl run), by omega, h1, h2, h3, by
+      simp [State.started] at h4 ⊢; omega⟩
+
+/-- Serve, too, cannot get stuck once the listener is closed: its next step (noticing the closed listener, or closing the
+    connection it had just accepted) is enabled and makes it return nil -/
+theorem C11_serve_not_stuck (σ : State) (h : Reachable σ) (hl : σ.listenerOpen = false)
+    (hs : σ.serve = .accepting ∨ ∃ c, σ.serve = .gotConn c) :
+    ∃ l σ', Step σ l σ' ∧ σ'.serve = .returned false := by
+  have hd := (inv_reachable σ h).listener hl
+  rcases hs with hs | ⟨c, hs⟩
+  · exact ⟨_, _, Step.acceptFail σ hs hl hd, rfl⟩
+  · exact ⟨_, _, Step.closeLate σ c hs hd, rfl⟩
+
+/-- non-vacuity: w8 (Shutdown waiting, one session has closed its connection, none in its loop) meets the hypotheses -/
+theorem w8_reachable : Reachable w8 := by
+  have r0 : Reachable w0 := .step _ _ _ .init (Step.serveStart init rfl)
+  have r1 : Reachable w1 := .step _ _ _ r0 (Step.accept w0 rfl rfl)
+  have r2 : Reachable w2 := .step _ _ _ r1 (Step.register w1 1 rfl rfl)
+  have r3 : Reachable w3 := .step _ _ _ r2 (Step.accept w2 rfl rfl)
+  have r4 : Reachable w4 := .step _ _ _ r3 (Step.sdSignal w3 rfl)
+  have r5 : Reachable w5 := .step _ _ _ r4 (Step.closeLate w4 2 rfl rfl)
+  have r6 : Reachable w6 := .step _ _ _ r5 (Step.sdCloseListener w5 rfl)
+  have r7 : Reachable w7 := .step _ _ _ r6 (Step.sdStartWait w6 rfl)
+  exact .step _ _ _ r7 (Step.sessCloseConn w7 (by decide))
+
+example : w8.sd.inProgress = true ∧ w8.running = 0 ∧ w8.connClosed = 1 ∧ measure w8 = 4 := by decide
+
 end Kmip.Shutdown
